@@ -26,7 +26,7 @@ package service
 //@ property C17 roots (*service).writeMessage, (*stat).increment, (*buffer).WriteTo, (*buffer).ReadPeek, (*buffer).ReadCommit, (*buffer).ReadFrom
 //@ property C17 callers (*buffer).Write, (*buffer).WriteWait, (*buffer).WriteCommit
 //@ property C15 roots (*buffer).Close, (*buffer).Read, (*buffer).ReadPeek, (*buffer).ReadWait, (*buffer).ReadCommit, (*buffer).Write, (*buffer).WriteWait, (*buffer).WriteCommit, (*buffer).waitForWriteSpace, (*buffer).ReadFrom, (*buffer).WriteTo
-//@ property C14 roots (*sequence).get, (*sequence).set, (*buffer).isDone, (*buffer).Len, (*buffer).waitForWriteSpace, (*buffer).WriteWait, (*buffer).WriteCommit, (*buffer).Write, ringCopy, (*buffer).ReadPeek, (*buffer).ReadWait, (*buffer).ReadCommit, (*buffer).Read, (*buffer).Close, (*buffer).ReadFrom, (*buffer).WriteTo
+//@ property C14 roots (*sequence).get, (*sequence).set, (*buffer).isDone, (*buffer).Len, (*buffer).waitForWriteSpace, (*buffer).WriteWait, (*buffer).WriteCommit, (*buffer).Write, ringCopy, (*buffer).ReadPeek, (*buffer).ReadWait, (*buffer).ReadCommit, (*buffer).Read, (*buffer).Close, (*buffer).ReadFrom, (*buffer).WriteTo, newBuffer, powerOfTwo64, newSequence
 
 func vspecWrapI(x int64, size int64) int64 {
 	if x >= size {
@@ -796,12 +796,24 @@ func vspecCovered(x int64, start int64, c int64, size int64) bool {
 //@   ensures[assumed-errtype] !typeis(err, message.ConnackCode)
 //@   ensures[ghostdef-connack] gfield(conn, "nconnack") == old(gfield(conn, "nconnack"))+1 && gfield(conn, "ackcode") == int(ifaceval(msg, *message.ConnackMessage).returnCode) && gfield(conn, "acksp") == ite(ifaceval(msg, *message.ConnackMessage).sessionPresent, 1, 0)
 //@   modifies gfield(conn, "nconnack"), gfield(conn, "ackcode"), gfield(conn, "acksp"), ifaceval(msg, *message.header).remlen, ifaceval(msg, *message.header).dirty
+//@ extern (*sync.WaitGroup).Add
+//@   pure
+// start: creates the two rings (each satisfying the ring invariant), on the server side re-activates every stored
+// subscription of the session with the stored QoS and this connection's own callback (the one SUBSCRIBE/UNSUBSCRIBE
+// and teardown use), and only then spawns the three goroutines; on an error nothing is spawned.
+// Ghost: nspawn counts go statements; nstarted (used by the callers' contracts) counts successful starts.
 //@ func (*service).start
-//@   flag bodyhash fe9c20751c91
-//@   trusted
 //@   results err
-//@   ensures[ghostdef-start] gfield(0, "nstarted") == old(gfield(0, "nstarted"))+1
-//@   modifies gfield(0, "nstarted"), fields(svc), modset(TopicStore), heap("GF.nsub"), heap("GF.subarr"), heap("GF.suboff"), heap("GF.sublen"), heap("GF.subreq"), heap("GF.subres"), heap("GF.clock"), heap("GF.mlockedAt")
+//@   requires svc.bufferSize <= 549755813888 && (!svc.client ==> svc.sess != nil && svc.topicsMgr != nil && svc.topicsMgr.p != nil && !held(addr(svc.sess.mu)))
+//@   atcall (*github.com/mdzio/go-mqtt/topics.Manager).Subscribe requires[C10:reactivated] typeis(subscriber, *OnPublishFunc) && ifaceval(subscriber, *OnPublishFunc) == addr(svc.onpub) && qos == qoss[rangeindex+1] && len(topic) == len(t)
+//@   loop 1 invariant -1 <= rangeindex && rangeindex < len(topics) && len(topics) == len(qoss) && svc.topicsMgr != nil && svc.topicsMgr.p != nil && heldsame() && gfield(0, "nsub") == old(gfield(0, "nsub"))+rangeindex+1 && gfield(0, "nspawn") == old(gfield(0, "nspawn")) && !svc.client
+//@   loop 1 invariant[rings] svc.in != nil && svc.out != nil && vdefRing(svc.in) && vdefRing(svc.out) && svc.in != svc.out && fresh(svc.in) && fresh(svc.out)
+//@   ensures[ghostdef-start] gfield(0, "nstarted") == old(gfield(0, "nstarted")) + ite(err == nil, 1, 0)
+//@   ensures[C16:three-goroutines] err == nil ==> gfield(0, "nspawn") == old(gfield(0, "nspawn"))+3
+//@   ensures[C11:nothing-on-error] err != nil ==> gfield(0, "nspawn") == old(gfield(0, "nspawn"))
+//@   ensures[C14:rings] err == nil ==> svc.in != nil && svc.out != nil && svc.in != svc.out && vdefRing(svc.in) && vdefRing(svc.out)
+//@   ensures[C10:client-untouched] old(svc.client) ==> gfield(0, "nsub") == old(gfield(0, "nsub"))
+//@   modifies gfield(0, "nstarted"), gfield(0, "nspawn"), fields(svc), bufcnt, modset(TopicStore), heap("GF.nsub"), heap("GF.subarr"), heap("GF.suboff"), heap("GF.sublen"), heap("GF.subreq"), heap("GF.subres"), heap("GF.clock"), heap("GF.mlockedAt")
 
 // Assumed: the package-level error values are ordinary errors (created with errors.New), never CONNACK codes.
 //@ axiom errvars2
@@ -818,7 +830,8 @@ func vspecCovered(x int64, start int64, c int64, size int64) bool {
 //@ func (*Server).handleConnection
 //@   results svc, err
 //@   flag noframe
-//@   requires svr.authMgr != nil && svr.sessMgr != nil && svr.sessMgr.p != nil && !held(addr(svr.mu)) && 0 <= svr.ConnectTimeout && svr.ConnectTimeout <= 1000000
+//@   requires svr.authMgr != nil && svr.sessMgr != nil && svr.sessMgr.p != nil && heldnone() && 0 <= svr.ConnectTimeout && svr.ConnectTimeout <= 1000000
+//@   requires svr.topicsMgr != nil && svr.topicsMgr.p != nil && svr.BufferSize <= 549755813888
 //@   atcall (*service).start assumes err == nil
 //@   ensures[C11:decode-code] gfield(0, "nauth") == old(gfield(0, "nauth")) && typeis(err, message.ConnackCode) ==> gfield(c, "nconnack") == old(gfield(c, "nconnack"))+1 && gfield(c, "ackcode") == int(ifaceval(err, message.ConnackCode)) && gfield(c, "acksp") == 0
 //@   ensures[C11:decode-garbage] gfield(0, "nauth") == old(gfield(0, "nauth")) && err != nil && !typeis(err, message.ConnackCode) ==> gfield(c, "nconnack") == old(gfield(c, "nconnack"))
@@ -990,7 +1003,7 @@ func vspecCovered(x int64, start int64, c int64, size int64) bool {
 //@ func (*Client).Connect
 //@   results err
 //@   flag noframe
-//@   requires 0 <= cln.ConnectTimeout && cln.ConnectTimeout <= 1000000 && (msg != nil ==> message.vdefConnSizes(msg) && len(msg.mtypeflags) == 1)
+//@   requires 0 <= cln.ConnectTimeout && cln.ConnectTimeout <= 1000000 && (msg != nil ==> message.vdefConnSizes(msg) && len(msg.mtypeflags) == 1) && cln.BufferSize <= 549755813888 && heldnone()
 //@   ensures[C20:accepted] err == nil ==> gfield(0, "nconnackrx") == old(gfield(0, "nconnackrx"))+1 && gfield(0, "rxcode") == 0 && gfield(0, "nstarted") == old(gfield(0, "nstarted"))+1
 //@   ensures[C20:refused] gfield(0, "nconnackrx") == old(gfield(0, "nconnackrx"))+1 && gfield(0, "rxcode") != 0 ==> typeis(err, message.ConnackCode) && int(ifaceval(err, message.ConnackCode)) == gfield(0, "rxcode")
 //@   ensures[C20:code-only-from-connack] typeis(err, message.ConnackCode) ==> gfield(0, "nconnackrx") == old(gfield(0, "nconnackrx"))+1 && int(ifaceval(err, message.ConnackCode)) == gfield(0, "rxcode")
@@ -1001,7 +1014,7 @@ func vspecCovered(x int64, start int64, c int64, size int64) bool {
 //@ func (*Client).ConnectTLS
 //@   results err
 //@   flag noframe
-//@   requires 0 <= cln.ConnectTimeout && cln.ConnectTimeout <= 1000000 && (msg != nil ==> message.vdefConnSizes(msg) && len(msg.mtypeflags) == 1)
+//@   requires 0 <= cln.ConnectTimeout && cln.ConnectTimeout <= 1000000 && (msg != nil ==> message.vdefConnSizes(msg) && len(msg.mtypeflags) == 1) && cln.BufferSize <= 549755813888 && heldnone()
 //@   ensures[C20:accepted] err == nil ==> gfield(0, "nconnackrx") == old(gfield(0, "nconnackrx"))+1 && gfield(0, "rxcode") == 0 && gfield(0, "nstarted") == old(gfield(0, "nstarted"))+1
 //@   ensures[C20:refused] gfield(0, "nconnackrx") == old(gfield(0, "nconnackrx"))+1 && gfield(0, "rxcode") != 0 ==> typeis(err, message.ConnackCode) && int(ifaceval(err, message.ConnackCode)) == gfield(0, "rxcode")
 //@   ensures[C20:code-only-from-connack] typeis(err, message.ConnackCode) ==> gfield(0, "nconnackrx") == old(gfield(0, "nconnackrx"))+1 && int(ifaceval(err, message.ConnackCode)) == gfield(0, "rxcode")
@@ -1085,3 +1098,34 @@ func vspecCovered(x int64, start int64, c int64, size int64) bool {
 //@   ensures[C20:sent-and-registered] err == nil ==> gfield(svc, "n12") == old(gfield(svc, "n12"))+1 && gfield(svc.sess.Pingack, "nwait") == old(gfield(svc.sess.Pingack, "nwait"))+1
 //@   ensures[inv] vdefOut(svc)
 //@   modifies modset(Out), modset(AckQ), allfields(message.header), gfield(svc, "n12"), gfield(svc, "id12")
+
+// ---------------------------------------------------------------- ring construction and connection start-up
+//@ func powerOfTwo64
+//@   pure
+//@   requires n >= 0
+//@   ensures result == (n >= 1 && pow2(n))
+// 64-bit bit trick; its contract is assumed (QF_BV lemma in /verif/lemmas, hand-transcribed body)
+//@ func roundUpPowerOfTwo64
+//@   flag bodyhash 6d1b608ad621
+//@   trusted
+//@   pure
+//@   requires 1 <= n && n <= 4611686018427387904
+//@   ensures pow2(result) && result >= n && result < 2*n
+//@ func newSequence
+//@   ensures result != nil && fresh(result) && result.cursor == 0 && result.gate == 0
+//@   modifies fields(result)
+//@ extern sync.NewCond
+//@   ensures result != nil && fresh(result) && result.L == l
+//@   modifies fields(result)
+
+// newBuffer: a ring that satisfies the ring invariant every buffer operation relies on (power-of-two size of at
+// least two read blocks, mask, both cursors at 0, two conditions over two distinct mutexes, not closed).
+//@ func newBuffer
+//@   results bf, err
+//@   flag allocbound 1099511627776
+//@   requires size <= 549755813888
+//@   ensures[C14:negative] size < 0 ==> err != nil
+//@   ensures[C14:nothing-on-error] err != nil ==> bf == nil
+//@   ensures[C14:ring] size >= 0 ==> err == nil && bf != nil && fresh(bf) && vdefRing(bf) && bf.done == 0 && bf.pseq.cursor == 0 && bf.cseq.cursor == 0 && bf.pseq.gate == 0 && len(bf.tmp) == 0
+//@   ensures[C14:size] err == nil ==> bf.size >= size && (size >= 16384 && pow2(size) ==> bf.size == size)
+//@   modifies fields(bf), bufcnt
